@@ -48,8 +48,31 @@ def parseFs (j : Json) (k : String) : Option Fs := do
     | .arr #[.str p, .str c] => some (p.toList, c.toList)
     | _ => none
 
+def parseSetOp : Json → Option SetOp
+  | Json.arr #[Json.str "add", e] => (parseEntry e).map .add
+  | Json.arr #[Json.str "discard", Json.str l] => some (.discard l.toList)
+  | Json.arr #[Json.str "clear"] => some .clear
+  | Json.arr #[Json.str "update", Json.arr es] => (es.toList.mapM parseEntry).map .update
+  | Json.arr #[Json.str "difference", Json.arr ls] =>
+    (ls.toList.mapM fun (x : Json) => match x with | Json.str l => some l.toList | _ => none).map .differenceUpdate
+  | Json.arr #[Json.str "intersection", Json.arr ls] =>
+    (ls.toList.mapM fun (x : Json) => match x with | Json.str l => some l.toList | _ => none).map .intersectionUpdate
+  | Json.arr #[Json.str "symdiff", Json.arr es] => (es.toList.mapM parseEntry).map .symDiffUpdate
+  | _ => none
+
 def handle : Handler := fun cmd j =>
   match cmd with
+  | "c24.history" => do
+    -- the set after a history of mutating operations, and the text flush() writes for it
+    let es ← parseEntries j "initial"
+    let ops ← (getArr j "ops") >>= fun a => a.mapM parseSetOp
+    let fin := applyOps es ops
+    pure (Json.mkObj [("set", Json.arr (fin.map ofEntry).toArray), ("text", ofChars (renderFile fin))])
+  | "c24.abortops" => do
+    let d ← chars j "dir"
+    let b ← chars j "base"
+    let cs ← getStrs j "written"
+    pure (Json.arr ((abortOps d b (cs.map String.toList)).map ofOp).toArray)
   | "c24.render" => do
     -- the text ContentsFile._write produces for the set
     let es ← parseEntries j "entries"
